@@ -352,6 +352,31 @@ def _part_b(tier):
                 term = w.decode(t.value, 'json')['term']
                 if term != m.term(fn):
                     res.violations.append(Violation('config: task computed with unsubstituted or wrong values', f'{vid} {fn}: {term} vs {m.term(fn)}', case))
+        # one caller-owned context (nested containers with placeholders under for_namespaces) used for two chains with different global_vars
+        from taskchain import Chain
+        ctx = {'for_namespaces': {'n': {'nested': ['{DIR}/a', {'k': ['{DIR}/b']}], 's': '{DIR}/s'}}}
+        snap = copy.deepcopy(ctx)
+        for gv_dir in ('/dev-data', '/prod-data'):
+            res.add('evaluations')
+            res.add('distinct_nontrivial')
+            case = {'kind': 'ctx-reuse', 'dir': gv_dir}
+            try:
+                import json
+                cdir = Path(root) / 'cfg3'
+                cdir.mkdir(exist_ok=True)
+                (cdir / 'inner.json').write_text(json.dumps({'tasks': [f'{w.modname}.A'], 's': 'x', 'nested': []}))
+                (cdir / 'top.json').write_text(json.dumps({'uses': f'{cdir}/inner.json as n'}))
+                top = Config(Path(root) / 'data3', cdir / 'top.json', context=ctx, global_vars={'DIR': gv_dir, 'N': 1})
+                t = Chain(top)['n::a']
+                got = worlds.jsonable(t.params['nested'])
+                want = [f'{gv_dir}/a', {'k': [f'{gv_dir}/b']}]
+                if got != want or str(t.params['s']) != f'{gv_dir}/s':
+                    res.violations.append(Violation('context: values substituted for an earlier chain reach a later chain built from the same context',
+                                                    f'global_vars DIR={gv_dir}: nested={got!r} s={str(t.params["s"])!r}, expected {want!r}', case))
+                if ctx != snap or any(type(x) is not str for x in [ctx['for_namespaces']['n']['s'], ctx['for_namespaces']['n']['nested'][0]]):
+                    res.violations.append(Violation('context: caller-owned context data rewritten by substitution', f'{ctx!r} vs {snap!r}', case))
+            except Exception as e:  # noqa
+                res.violations.append(Violation('context: reused context cannot be applied', f'{type(e).__name__}: {e}', case))
         # config `uses` with a placeholder path (real global var, not the harness's textual one)
         cdir, cases = _ctx_uses_cases(root)
         base = Path(root) / 'data2'
